@@ -126,8 +126,8 @@ def run_session(col, binpath, rng, tag, scratch, n_events):
         opts += ["--airports", csvp]
         if rng.random() < 0.5:
             opts += ["--airports-tz-filter", rng.choice(["America/Chicago", "Europe/Amsterdam,America/Chicago", "Nowhere"])]
-    if rng.random() < 0.15:
-        opts += ["--gpsd", "--gpsd-ip", "127.0.0.1"]  # nothing listens on the gpsd port: the helper thread must fail quietly
+    if rng.random() < 0.3:
+        opts += ["--gpsd", "--gpsd-ip", "127.0.0.1"]  # served by the stand-in gpsd of this run (or nothing listens: the helper thread must fail quietly)
     rows, cols = rng.choice(SIZES[5:])
     lines = aircraft_lines(rng, n_air, lat, lon)
     # "any traffic": the feed also carries lines that are not frames (C16's malformed kinds)
@@ -388,10 +388,17 @@ def main(a, lcol, col, run_all, scratch, START):
             i = int(t.split("#")[1])
             n_events = len(r.get("events", []))
             jobs = [(t, lambda rng: run_session(lcol, a.bin, rng, t, scratch, n_events))]
-    run_all(jobs)
+    # a gpsd stand-in for the sessions started with --gpsd (the others never connect to it)
+    gpsd = procs.FakeGpsd()
+    gpsd.start()
+    try:
+        run_all(jobs)
+    finally:
+        gpsd.stop = True
+    col.counters["gpsd_connections_served"] = gpsd.connections
     ev = col.counters.get("events", 0) + col.counters.get("cli_cases", 0) + col.counters.get("quits_checked", 0)
     col.sample({"session": "40 aircraft, traffic running, --filter-time 1, 150 events", "events": ["key:F3", "key:Down", "mouse:drag:17:9", "resize:1:1", "raw:b'\\x1b[<'", "key:Enter"], "then": "q -> exit status, termios, cursor/mouse modes"})
     return vlib.finish(col, "C17", a.tier, a.seed, "exploration",
-        "radar on a pseudo-terminal: seeded random sequences (10-300 events) over keys (F1-F5, Tab, l i h t n, - +, arrows, Enter, others), SGR mouse reports (down/up/drag/scroll/right/move at tab hit boxes, touchscreen buttons, anywhere, outside the window), held keys (40-300 repeats), steady pointer streams (150-300 reports a few ms apart), resizes (1x1 ... 300x100) and raw bytes / broken escape sequences, x tracked set 0/1/3/10/40 x traffic stopped/running x --filter-time default/0/1 x option subsets; process must stay alive until quit, then exit 0 with termios and cursor/mouse modes restored; quit while 'Waiting for connection', on the reconnect screen, and on a silent feed after a successful reconnect; 15 invalid command-line values must end in a non-panic error exit; distinct_nontrivial = distinct (event kind/key, session class, CLI case) cells exercised",
+        "radar on a pseudo-terminal: seeded random sequences (10-300 events) over keys (F1-F5, Tab, l i h t n, - +, arrows, Enter, others), SGR mouse reports (down/up/drag/scroll/right/move at tab hit boxes, touchscreen buttons, anywhere, outside the window), held keys (40-300 repeats), steady pointer streams (150-300 reports a few ms apart), resizes (1x1 ... 300x100) and raw bytes / broken escape sequences, x tracked set 0/1/3/10/40 x traffic stopped/running x --filter-time default/0/1 x option subsets (with --gpsd a stand-in gpsd on port 2947 answers: periodic reports, one report then silence, a non-JSON line, a hang-up); process must stay alive until quit, then exit 0 with termios and cursor/mouse modes restored; quit while 'Waiting for connection', on the reconnect screen, and on a silent feed after a successful reconnect; 15 invalid command-line values must end in a non-panic error exit; distinct_nontrivial = distinct (event kind/key, session class, CLI case) cells exercised",
         ["the terminal is a pty with a minimal VT model; 'as it found it' = termios flags equal, cursor visible, mouse reporting modes off", "exit deadlines (20 s) are generous; a process that never exits after quit is a violation, a driver that cannot connect is inconclusive"],
         a.verif, START, ev, len(col.classes), min_evaluations=50)
